@@ -124,7 +124,7 @@ check("C05", "exploration",
       "DESIGN.md §3/C05")
 
 check("C06", "fault_enumeration",
-      "Fault enumeration on the real XML reader/lexer/type checker: accepted base models x 11 text blocks x 9 fault kinds "
+      "Fault enumeration on the real XML reader/lexer/type checker: accepted base models x 12 text blocks (incl. the exponential rate of a location) x 9 fault kinds "
       "(undeclared identifier, clock for operand, token deleted, bracket deleted, stray ) ] }, semicolon deleted, side "
       "effect, unterminated comment) at every token position x 10 layout variants (blank lines, whitespace-only lines, trailing blanks, mixed line ends, "
       "&#13;&#10; line ends, block and line comments, tabs, backslash continuations). Every error and warning is resolved "
